@@ -1,0 +1,59 @@
+//go:build verif
+
+package kafka
+
+// Accessors for the external verification harness (build tag `verif`,
+// property C10). Nothing here is used by production code and nothing here
+// changes the behaviour of the plugin.
+
+import (
+	"context"
+
+	"github.com/twmb/franz-go/pkg/kgo"
+)
+
+// VerifClient returns the kgo client created by Start (to read
+// MarkedOffsets / CommittedOffsets).
+func (p *Plugin) VerifClient() *kgo.Client { return p.client }
+
+// VerifFeeder drives the real splitConsume.Assigned / pconsumer.consume code
+// with hand-made fetches (partition numbers, offsets and leader epochs that a
+// loopback broker cannot reasonably serve). It is a second splitConsume built
+// from the plugin's own fields, so the poll loop of the plugin (which owns
+// p.s.consumers) is not disturbed.
+type VerifFeeder struct{ s *splitConsume }
+
+// VerifNewFeeder must be called after Start.
+func (p *Plugin) VerifNewFeeder() *VerifFeeder {
+	return &VerifFeeder{s: &splitConsume{
+		consumers:              make(map[tp]*pconsumer),
+		bufferSize:             p.s.bufferSize,
+		maxConcurrentConsumers: p.s.maxConcurrentConsumers,
+		idByTopic:              p.s.idByTopic,
+		controller:             p.s.controller,
+		logger:                 p.s.logger,
+		metaTemplater:          p.s.metaTemplater,
+		consumeErrorsMetric:    p.s.consumeErrorsMetric,
+	}}
+}
+
+// Assigned calls the real splitConsume.Assigned.
+func (f *VerifFeeder) Assigned(assigned map[string][]int32) {
+	f.s.Assigned(context.Background(), nil, assigned)
+}
+
+// Lost calls the real splitConsume.Lost (waits for the partition consumers).
+func (f *VerifFeeder) Lost(lost map[string][]int32) {
+	f.s.Lost(context.Background(), nil, lost)
+}
+
+// Feed hands one fetched partition to its partition consumer exactly like
+// splitConsume.consume does; false if no consumer exists for it.
+func (f *VerifFeeder) Feed(p kgo.FetchTopicPartition) bool {
+	c, ok := f.s.consumers[tp{p.Topic, p.Partition}]
+	if !ok {
+		return false
+	}
+	c.fetches <- p
+	return true
+}
